@@ -168,6 +168,10 @@ func checkResponse(tt *testing.T, c Case, info *pbt.Info) error {
 				trailer = resp.Trailer
 			}
 		case "never":
+		case "with-error":
+			// the HTTP trailers arrive although the body failed (e.g. a declared
+			// length that the data never reached): they do not repair the body
+			trailer = resp.Trailer
 		case "foreign-ok":
 			// HTTP trailers claiming success on a protocol whose terminator
 			// lives in the body (gRPC-Web, Connect): they are not the
@@ -503,7 +507,7 @@ func gen(t *rapid.T) Case {
 	}
 	c.Body = bodies.Gen(t, d, sizes)
 	c.Ending = rapid.SampledFrom([]string{"eof", "eof", "unexpected", "opaque", "rst", "rst-noerror"}).Draw(t, "ending")
-	c.Trailers = rapid.SampledFrom([]string{"natural", "natural", "always", "never", "foreign-ok"}).Draw(t, "trailers")
+	c.Trailers = rapid.SampledFrom([]string{"natural", "natural", "always", "never", "foreign-ok", "with-error"}).Draw(t, "trailers")
 	if c.Dir == "hwrite" && len(c.Body.Msgs) == 0 {
 		c.Body.Msgs = []prog.Msg{{N: 3, TLen: 10}}
 		c.Body.Compress = []bool{false}
